@@ -28,7 +28,7 @@ func doGuarded(c *Ctx, s *Sess, o EOp, what string) string {
 }
 
 func runC03(c *Ctx) {
-	c.Rule = "structured and malformed streams: (0) Enforce over conditional role graphs with cycles, in a child process (a stack overflow is fatal), and subject-priority loads over large hierarchies (chains of up to 40 diamonds, fully connected clusters, a complete layered DAG) in a child process with a time and address-space limit; (A) every model family of C01 plus built-in-heavy matchers (keyMatch, regexMatch, ipMatch, eval) with requests of wrong arity, non-string values into g() and built-ins, attribute access on strings and missing attributes, unknown EnforceContext names, operands on which built-ins panic, unparsable and self-referential eval() rules, and for every pattern built-in a pattern that does not compile followed by well-formed requests on the same and on a fresh enforcer; (B) policy text for the file and string adapters assembled from a line alphabet (valid rules, wrong arity, unknown and empty types, quoted / unbalanced / bare quotes, comments, blanks, CRLF, NUL, commas only, an over-long line), under every effect incl. subjectPriority with cyclic role graphs and explicit priority, every third model with a second, shorter policy definition p2; every call runs under a 5 s watchdog with recover at the harness boundary; the Lean model must predict exactly the class (decision / error) and the loaded rules; arbitrary invalid-UTF-8 bytes are run on the implementation only; non-trivial = a case containing both a successful and a failing call; distinct = case text"
+	c.Rule = "structured and malformed streams: (0) Enforce over conditional role graphs with cycles, in a child process (a stack overflow is fatal), and subject-priority loads over large hierarchies (chains of up to 40 diamonds, fully connected clusters, a complete layered DAG) in a child process with a time and address-space limit; (A) every model family of C01 plus built-in-heavy matchers (keyMatch, regexMatch, ipMatch, eval) with requests of wrong arity, non-string values into g() and built-ins, attribute access on strings and missing attributes, unknown EnforceContext names, operands on which built-ins panic, unparsable and self-referential eval() rules, and for the pattern built-ins keyMatch2-5, keyGet2-3, regexMatch and globMatch a pattern that does not compile followed by well-formed requests on the same and on a fresh enforcer; (B) policy text for the file and string adapters assembled from a line alphabet (valid rules, wrong arity, unknown and empty types, quoted / unbalanced / bare quotes, comments, blanks, CRLF, NUL, commas only, an over-long line), under every effect incl. subjectPriority with cyclic role graphs and explicit priority, every third model with a second, shorter policy definition p2; every generated Enforce / load call runs under a 5 s watchdog with recover at the harness boundary (set-up calls of a case under recover only); a systematic pass loads, for every effect, each column layout of p (plain, with eft, first column called user; priority first / last under the priority effect) with p2 lines through the file and the string adapter; the Lean model must predict exactly the class (decision / error) and the loaded rules; arbitrary invalid-UTF-8 bytes are run on the implementation only; non-trivial = a case containing both a successful and a failing call; distinct = case text"
 	// ---- (0) conditional role managers (not modelled): cycles must not hang or crash Enforce (child process)
 	condCycles(c)
 	subjectDags(c)
@@ -297,6 +297,9 @@ func c03AfterRejectedPattern(c *Ctx) {
 		{"keyGet3", "r.sub == p.sub && keyGet3(r.obj, p.obj, 'id') == '1' && r.act == p.act", []string{"alice", "/res/{id}/(", "read"}, []string{"alice", "/ok/{id}", "read"}, []interface{}{"alice", "/res/1/x", "read"}, []interface{}{"alice", "/ok/1", "read"}},
 		{"regexMatch", "r.sub == p.sub && regexMatch(r.obj, p.obj) && r.act == p.act", []string{"alice", "/res/(", "read"}, []string{"alice", "/ok/[0-9]+", "read"}, []interface{}{"alice", "/res/1", "read"}, []interface{}{"alice", "/ok/1", "read"}},
 		{"keyMatch2", "r.sub == p.sub && keyMatch2(r.obj, p.obj) && r.act == p.act", []string{"alice", "/res/:id/(", "read"}, []string{"alice", "/ok/:id", "read"}, []interface{}{"alice", "/res/1/x", "read"}, []interface{}{"alice", "/ok/1", "read"}},
+		{"keyMatch3", "r.sub == p.sub && keyMatch3(r.obj, p.obj) && r.act == p.act", []string{"alice", "/res/{id}/(", "read"}, []string{"alice", "/ok/{id}", "read"}, []interface{}{"alice", "/res/1/x", "read"}, []interface{}{"alice", "/ok/1", "read"}},
+		{"keyMatch5", "r.sub == p.sub && keyMatch5(r.obj, p.obj) && r.act == p.act", []string{"alice", "/res/{id}/(", "read"}, []string{"alice", "/ok/{id}", "read"}, []interface{}{"alice", "/res/1/x?a=1", "read"}, []interface{}{"alice", "/ok/1?a=1", "read"}},
+		{"globMatch", "r.sub == p.sub && globMatch(r.obj, p.obj) && r.act == p.act", []string{"alice", "/res/[", "read"}, []string{"alice", "/ok/*", "read"}, []interface{}{"alice", "/res/1", "read"}, []interface{}{"alice", "/ok/1", "read"}},
 	}
 	enforce := func(e *casbin.Enforcer, req []interface{}) string {
 		type res struct {
